@@ -37,4 +37,7 @@ theorem output_format_eq : RawConsts.outItemSep = [32] ∧ RawConsts.outRecordIn
 the hypothesis of `cleanSlow_length_le` (the destination buffer of `clean` is not overrun). -/
 theorem codeKeywords_ok : ∀ kw ∈ RawConsts.codeKeywords, kw.2 ≠ [] ∧ ∀ b ∈ kw.2, b ≠ 10 := by decide
 
+/-- no code keyword has an empty name (a round of `clean` that copies a block consumes input). -/
+theorem codeKeywords_names : ∀ kw ∈ RawConsts.codeKeywords, kw.1 ≠ [] := by decide
+
 end OpmVerif.Lex
